@@ -28,12 +28,14 @@ import (
 )
 
 type c15Op struct {
-	Op string `json:"op"` // w | wb | ws | flush | close | isopen | rem | read | kill | down | up
+	Op string `json:"op"` // w | wb | ws | flush | close | isopen | rem | read | kill | down | up | age
 	N  int    `json:"n,omitempty"`
 	// kill: which destination's client socket is closed behind the transport's back;
 	// down / up: which destination stops listening (its port becomes unreachable:
 	// a later send may be refused with ECONNREFUSED) / listens again on the same port
 	D int `json:"d,omitempty"`
+	// age (N = milliseconds): the caller does nothing until the transport is at
+	// least that old; an input (how long a transport stays in use), not a verdict
 }
 
 type c15Case struct {
@@ -47,6 +49,7 @@ type c15Case struct {
 	Proto string `json:"proto,omitempty"`
 	Big   []int  `json:"big,omitempty"`
 	Later int    `json:"later,omitempty"`
+	AgeMs int    `json:"age_ms,omitempty"` // the reporter is this old before its last round
 	// closerace: Closers goroutines call Close on one fresh transport at the
 	// same moment (spin barrier), Rounds times
 	Closers int `json:"closers,omitempty"`
@@ -156,6 +159,7 @@ type c15Run struct {
 	Delivered   int
 	Refused     int
 	SendFail    int
+	AgedMs      int  // the transport was kept in use until it was this old
 	DestDown    int  // destinations taken down (port unreachable) during the case
 	SendRefused int  // sends the kernel refused on a destination that had been down
 	Skip        bool // the listener could not be re-opened on its port: inconclusive
@@ -184,6 +188,7 @@ func c15RunTransport(c *c15Case) (res c15Run) {
 	var multi *thriftudp.TMultiUDPTransport
 	var kids []*thriftudp.TUDPTransport
 	var err error
+	created := time.Now()
 	if c.Multi {
 		multi, err = thriftudp.NewTMultiUDPClientTransport(hp, "")
 		if err != nil {
@@ -226,6 +231,12 @@ func c15RunTransport(c *c15Case) (res c15Run) {
 
 	for idx, o := range c.Ops {
 		switch o.Op {
+		case "age":
+			for time.Since(created) < time.Duration(o.N)*time.Millisecond {
+				time.Sleep(10 * time.Millisecond)
+			}
+			res.AgedMs = o.N
+			continue
 		case "kill":
 			// (one fault kind per case: the multi transport returns only the first error)
 			if o.D < n && flakyDest < 0 {
@@ -485,6 +496,13 @@ func c15RunTransport(c *c15Case) (res c15Run) {
 			}
 		}
 		if check && o.Op == "flush" {
+			faultless := !anyKilled && flakyDest < 0
+			for d := range acc {
+				faultless = faultless && !refused[d]
+			}
+			if faultless && n > 0 && code != 0 {
+				res.fail("flush_without_fault_succeeds", "op %d: Flush returned an error (code %d) although every write of the message was accepted and no socket fault was injected; the transport is %d ms old", idx, code, time.Since(created).Milliseconds())
+			}
 			for d := range acc {
 				acc[d], refused[d] = nil, false
 			}
@@ -569,6 +587,7 @@ func c15RunReporter(c *c15Case) (obs c15RepObs, pred, fail string) {
 	if c.Proto == "binary" {
 		proto = m3.Binary
 	}
+	born := time.Now()
 	r, err := m3.NewReporter(m3.Options{HostPorts: hp, Service: "svc", Env: "test", Protocol: proto})
 	if err != nil {
 		fatal(err)
@@ -582,6 +601,9 @@ func c15RunReporter(c *c15Case) (obs c15RepObs, pred, fail string) {
 		r.Flush()
 	}
 	for k := 0; k < c.Later; k++ {
+		for k == c.Later-1 && time.Since(born) < time.Duration(c.AgeMs)*time.Millisecond {
+			time.Sleep(10 * time.Millisecond)
+		}
 		r.AllocateCounter(fmt.Sprintf("small%d", k), map[string]string{"a": "b"}).ReportCount(int64(k + 1))
 		r.Flush()
 	}
@@ -606,12 +628,19 @@ func c15RunReporter(c *c15Case) (obs c15RepObs, pred, fail string) {
 		obs.Datagrams = append(obs.Datagrams, lens)
 		cnt := 0
 		for k := 0; k < c.Later; k++ {
+			when := "after the oversized batch"
+			if len(c.Big) == 0 {
+				when = "in a normal round"
+			}
+			if c.AgeMs > 0 && k == c.Later-1 {
+				when = fmt.Sprintf("when the reporter was %d ms old", c.AgeMs)
+			}
 			s := seen[fmt.Sprintf("small%d", k)]
 			if s == 1 {
 				cnt++
 			}
 			if s != 1 && fail == "" {
-				pred, fail = "reporter_recovers", fmt.Sprintf("destination %d: metric small%d, reported after the oversized batch, arrived %d times (expected once); %d datagrams arrived", d, k, s, len(got))
+				pred, fail = "reporter_recovers", fmt.Sprintf("destination %d: metric small%d, reported %s, arrived %d times (expected once); %d datagrams arrived", d, k, when, s, len(got))
 			}
 		}
 		obs.Seen = append(obs.Seen, cnt)
@@ -980,6 +1009,28 @@ func init() {
 		ctx.Res.Extra["max_length"] = c15Max
 		retried, inconclusive, refusedSends := 0, 0, 0
 		// runs one case (retrying once: loopback UDP may drop); returns whether the property held
+		// results of the slow cases, which run next to the main stream
+		preT := map[*c15Case]chan c15Run{}
+		type repRes struct {
+			obs        c15RepObs
+			pred, fail string
+		}
+		preR := map[*c15Case]chan repRes{}
+		runTransport := func(c *c15Case) c15Run {
+			if ch, ok := preT[c]; ok {
+				delete(preT, c)
+				return <-ch
+			}
+			return c15RunTransport(c)
+		}
+		runReporter := func(c *c15Case) (c15RepObs, string, string) {
+			if ch, ok := preR[c]; ok {
+				delete(preR, c)
+				x := <-ch
+				return x.obs, x.pred, x.fail
+			}
+			return c15RunReporter(c)
+		}
 		one := func(c *c15Case, witness bool) bool {
 			if c.Kind == "closerace" {
 				obs, pred, fail := c15RunCloseRace(c)
@@ -996,12 +1047,15 @@ func init() {
 				return true
 			}
 			if c.Kind == "reporter" {
-				obs, pred, fail := c15RunReporter(c)
+				obs, pred, fail := runReporter(c)
 				if fail != "" {
 					retried++
-					obs, pred, fail = c15RunReporter(c)
+					obs, pred, fail = runReporter(c)
 				}
 				cls := fmt.Sprintf("reporter/%s/dests=%d/big=%v", c.Proto, c.Dests, len(c.Big) > 0)
+				if c.AgeMs > 0 {
+					cls += "+aged"
+				}
 				ctx.Case(c, "", cls, hashOf(c))
 				if fail != "" {
 					if witness {
@@ -1013,10 +1067,10 @@ func init() {
 				}
 				return true
 			}
-			run := c15RunTransport(c)
+			run := runTransport(c)
 			if run.Fail != "" || run.Skip {
 				retried++
-				run = c15RunTransport(c)
+				run = runTransport(c)
 			}
 			if run.Skip {
 				// a listener could not be re-opened on its port (taken by another process): no verdict
@@ -1042,6 +1096,9 @@ func init() {
 			}
 			if run.DestDown > 0 {
 				fault += "+destdown"
+			}
+			if run.AgedMs > 0 {
+				fault += "+aged"
 			}
 			key := ""
 			if run.Delivered > 0 || fault != "clean" {
@@ -1069,6 +1126,49 @@ func init() {
 			}
 			one(&c, false)
 			return
+		}
+		// Slow cases: a transport (a reporter) that is still in use some seconds
+		// after it was created - "Each Flush sends ... exactly the bytes written
+		// since the previous Flush" has no time limit, and the M3 reporter "keeps
+		// emitting later batches" for the life of the process.  They are started
+		// here, run next to the main stream and are collected after it.
+		var aged []*c15Case
+		ages := []int{2500}
+		if ctx.Thorough() {
+			ages = append(ages, 6000, 11000)
+		}
+		for _, a := range ages {
+			aged = append(aged,
+				&c15Case{Kind: "transport", Dests: 1, Ops: []c15Op{{Op: "w", N: 21}, {Op: "ws", N: 5}, {Op: "flush"}, {Op: "age", N: a},
+					{Op: "w", N: 33}, {Op: "wb"}, {Op: "flush"}, {Op: "w", N: 7}, {Op: "flush"}, {Op: "close"}}},
+				&c15Case{Kind: "transport", Multi: true, Dests: 3, Ops: []c15Op{{Op: "w", N: 21}, {Op: "flush"}, {Op: "age", N: a},
+					{Op: "w", N: 33}, {Op: "w", N: 1}, {Op: "flush"}, {Op: "w", N: 7}, {Op: "flush"}}},
+				&c15Case{Kind: "reporter", Dests: 1 + 2*(a/1000%2), Proto: []string{"compact", "binary"}[a/1000%2], Later: 3, AgeMs: a})
+		}
+		for _, c := range aged {
+			c := c
+			if c.Kind == "reporter" {
+				ch := make(chan repRes, 1)
+				preR[c] = ch
+				go func() { o, p, f := c15RunReporter(c); ch <- repRes{o, p, f} }()
+			} else {
+				ch := make(chan c15Run, 1)
+				preT[c] = ch
+				go func() { ch <- c15RunTransport(c) }()
+			}
+		}
+		// bytes still buffered when the transport is closed are not a message:
+		// "Each Flush sends ..." - Close sends nothing (1 and 0..3 destinations)
+		for _, c := range []c15Case{
+			{Kind: "transport", Dests: 1, Ops: []c15Op{{Op: "w", N: 10}, {Op: "wb"}, {Op: "ws", N: 4}, {Op: "close"}, {Op: "close"}}},
+			{Kind: "transport", Dests: 1, Ops: []c15Op{{Op: "w", N: 6}, {Op: "flush"}, {Op: "ws", N: 40000}, {Op: "close"}, {Op: "flush"}}},
+			{Kind: "transport", Multi: true, Dests: 0, Ops: []c15Op{{Op: "w", N: 10}, {Op: "close"}}},
+			{Kind: "transport", Multi: true, Dests: 1, Ops: []c15Op{{Op: "w", N: 10}, {Op: "w", N: 3}, {Op: "close"}, {Op: "close"}}},
+			{Kind: "transport", Multi: true, Dests: 2, Ops: []c15Op{{Op: "w", N: 5}, {Op: "flush"}, {Op: "w", N: 3}, {Op: "close"}}},
+			{Kind: "transport", Multi: true, Dests: 3, Ops: []c15Op{{Op: "w", N: 64000}, {Op: "wb"}, {Op: "close"}, {Op: "w", N: 2}}},
+		} {
+			c := c
+			one(&c, false)
 		}
 		// the caller re-uses the slice it wrote from ("exactly the bytes written
 		// since the previous Flush", whatever the caller does with its own memory
@@ -1102,9 +1202,17 @@ func init() {
 		}
 		for _, raw := range ctx.CorpusCases() {
 			var c c15Case
-			if json.Unmarshal(raw, &c) == nil && c.Kind != "" && (!restricted || c.Witness == "") {
-				one(&c, false)
+			if json.Unmarshal(raw, &c) != nil || c.Kind == "" || (restricted && c.Witness != "") {
+				continue
 			}
+			slow := c.AgeMs > 0
+			for _, o := range c.Ops {
+				slow = slow || o.Op == "age"
+			}
+			if slow {
+				continue // the slow inputs are built in and run next to the main stream; the stored ones are for --replay
+			}
+			one(&c, false)
 		}
 		// "destination down" stream, fixed part (the random part is in c15Gen)
 		if !restricted {
@@ -1134,6 +1242,10 @@ func init() {
 				c.Big = bigs[ctx.R.Intn(len(bigs))]
 			}
 			one(&c, false)
+		}
+		// collect the slow cases
+		for _, c := range aged {
+			one(c, false)
 		}
 		ctx.Res.Extra["retried_cases"] = retried
 		ctx.Res.Extra["inconclusive_cases"] = inconclusive
